@@ -184,7 +184,8 @@ class TorchTensor(_core.Tensor):
 
         with torch._subclasses.fake_tensor.unset_fake_temporarily():  # pylint: disable=protected-access
             # Disable any fake mode so calling detach() etc. will return a real tensor
-            tensor = self.raw.detach().cpu().contiguous()
+            # Materialize lazy conjugate / negative views: their storage holds the unresolved values
+            tensor = self.raw.detach().cpu().resolve_conj().resolve_neg().contiguous()
 
         if isinstance(tensor, torch._subclasses.fake_tensor.FakeTensor):  # pylint: disable=protected-access
             raise TypeError(
